@@ -32,12 +32,13 @@ def _field():
 
 
 def operator_matrix(disc, model, mesh, n):
+    """the space operator of a linear model is affine, R(Q) = A Q + z (z != 0 with a non-zero Dirichlet inflow value): A column by column, z = R(0)"""
+    z = np.asarray(disc.rhs(cases.build_field(model, mesh, [np.zeros(n)]))[0], dtype=float)
     A = np.zeros((n, n))
     for j in range(n):
         e = np.zeros(n)
         e[j] = 1.0
-        A[:, j] = np.asarray(disc.rhs(cases.build_field(model, mesh, [e]))[0], dtype=float)
-    z = np.asarray(disc.rhs(cases.build_field(model, mesh, [np.zeros(n)]))[0], dtype=float)
+        A[:, j] = np.asarray(disc.rhs(cases.build_field(model, mesh, [e]))[0], dtype=float) - z
     return A, z
 
 
@@ -47,7 +48,9 @@ def _setup(case):
     mesh = cases.build_mesh(case["mesh"])
     xf = np.asarray(mesh.xf, dtype=float)
     n = len(xf) - 1
-    disc = cases.build_disc(model, mesh, case["num"], None, {"type": "per"}, {"type": "per"})
+    bv = case.get("dirichlet")
+    bc = {"type": "per"} if bv is None else {"type": "dirichlet", "prim": [bv]}
+    disc = cases.build_disc(model, mesh, case["num"], None, dict(bc), dict(bc))
     q0 = cases.profile(case["field"], cases.norm_coord(xf))
     xc_ = 0.5 * (xf[1:] + xf[:-1])
     seam = float(xc_[0] + mesh.length - xc_[-1]) / float(np.mean(xf[1:] - xf[:-1]))
@@ -60,9 +63,17 @@ def _setup(case):
         # flowdyn closes the periodic gradient with the NOMINAL length of the mesh: on a morphed mesh whose image has another extent the seam distance
         # xc[0] + length - xc[-1] can vanish (0/0).  Such meshes are outside what the periodic closure supports; not judged.
         raise Skip("periodic closure undefined on this mesh (image extent differs from the nominal length and the seam distance vanishes)")
-    require(np.max(np.abs(z)) == 0.0, "operator-affine", "rhs(0) != 0 for periodic linear convection")
+    if bv is None:
+        require(np.max(np.abs(z)) == 0.0, "operator-affine", "rhs(0) != 0 for periodic linear convection")
+    # the operator is affine: R(a x + (1-a) y) = a R(x) + (1-a) R(y), checked on the initial data against A q0 + z
+    r0 = np.asarray(disc.rhs(cases.build_field(model, mesh, [q0.copy()]))[0], dtype=float)
+    sc0 = abs(md["a"]) / float(np.min(xf[1:] - xf[:-1])) * (float(np.max(np.abs(q0))) + abs(bv or 0.0)) + 1e-300          # natural size of a residual
+    require(float(np.max(np.abs(r0 - (A @ q0 + z)))) <= 1e-11 * sc0, "operator-affine", "the space operator of linear convection is not affine in the data")
+    if bv is not None and 0.0 < float(np.mean(np.abs(q0))) < 1e-4 * max(abs(bv), float(np.max(np.abs(q0)))):
+        # flowdyn's difference step is 1e-6 x mean|q|: data that are tiny (not zero) next to the boundary value push it into the round-off of the operator (see C01)
+        raise Skip("data tiny compared with the Dirichlet value: the finite-difference Jacobian step is below the round-off resolution of the operator")
     dx = xf[1:] - xf[:-1]
-    return md, model, mesh, disc, n, q0, A, dx
+    return md, model, mesh, disc, n, q0, A, dx, z
 
 
 def strat_theta(tier):
@@ -72,8 +83,10 @@ def strat_theta(tier):
     # SAME solver object differ (theta schemes; gear's BDF2 recurrence is stated for a constant step)
     unit = st.one_of(st.just(1.0), st.just(1.0), gen.logf(-10, 4))
     dtfac = st.one_of(st.just([1.0, 1.0, 1.0, 1.0]), st.lists(st.one_of(gen.logf(-1.5, 1.5), gen.f(0.5, 2.0)), min_size=4, max_size=4))
-    return st.builds(lambda md, me, num, fld, integ, cfl, ns, loc, u, df: dict(model=md, mesh=cases.scale_mesh(me, u), num=num, field=fld, integ=integ, cfl=cfl, nsteps=ns, local=loc, unit=u, dtfac=df),
-                     gen.model_convection(), st.one_of(gen.mesh_any(2, nmax), gen.mesh_any(2, nmax), gen.mesh_any(2, nmax), gen.mesh_morph_moving(2, nmax)), _linear_nums(), _field(), st.sampled_from(im), gen.logf(-2, 2), st.integers(1, 4), st.booleans(), unit, dtfac)
+    # boundaries: periodic (homogeneous problem), or a Dirichlet value on both sides (the inflow one makes the linear problem affine, dQ/dt = A Q + b)
+    return st.builds(lambda c, bv: dict(c, dirichlet=bv), st.builds(lambda md, me, num, fld, integ, cfl, ns, loc, u, df: dict(model=md, mesh=cases.scale_mesh(me, u), num=num, field=fld, integ=integ, cfl=cfl, nsteps=ns, local=loc, unit=u, dtfac=df),
+                     gen.model_convection(), st.one_of(gen.mesh_any(2, nmax), gen.mesh_any(2, nmax), gen.mesh_any(2, nmax), gen.mesh_morph_moving(2, nmax)), _linear_nums(), _field(), st.sampled_from(im), gen.logf(-2, 2), st.integers(1, 4), st.booleans(), unit, dtfac),
+                     st.one_of(st.none(), st.none(), gen.f(-2, 2), st.sampled_from([1.0, 0.0])))
 
 
 def strat_theta_large(tier):
@@ -96,7 +109,7 @@ def strat_theta_fragile(tier):
 
 
 def check_theta(case):
-    md, model, mesh, disc, n, q0, A, dx = _setup(case)
+    md, model, mesh, disc, n, q0, A, dx, zvec = _setup(case)
     name = case["integ"]
     a = abs(md["a"])
     local = case["local"] and name != "gear"
@@ -105,7 +118,7 @@ def check_theta(case):
     f = cases.build_field(model, mesh, [q0])
     I = np.eye(n)
     qs = [q0.copy()]
-    scale = float(np.max(np.abs(q0))) + 1e-300
+    scale = max(float(np.max(np.abs(q0))), abs(case.get("dirichlet") or 0.0)) + 1e-300
     worst = 0.0
     tref = 0.0
     for k in range(case["nsteps"]):
@@ -119,12 +132,12 @@ def check_theta(case):
         qn = qs[-1]
         if name in THETA:
             th = THETA[name]
-            ref = oracles.dense_solve(I - th * D @ A, (I + (1 - th) * D @ A) @ qn)
+            ref = oracles.dense_solve(I - th * D @ A, (I + (1 - th) * D @ A) @ qn + D @ zvec)
         elif name == "gear":
             if k == 0:
-                ref = oracles.dense_solve(I - 0.5 * D @ A, (I + 0.5 * D @ A) @ qn)
+                ref = oracles.dense_solve(I - 0.5 * D @ A, (I + 0.5 * D @ A) @ qn + D @ zvec)
             else:
-                ref = oracles.dense_solve(1.5 * I - D @ A, 2.0 * qn - 0.5 * qs[-2])
+                ref = oracles.dense_solve(1.5 * I - D @ A, 2.0 * qn - 0.5 * qs[-2] + D @ zvec)
         else:
             raise Skip("implicit integrator %r is not one of those the property names (no reference scheme)" % name)
         # measured against the size of the data of THIS step (per-cell time steps with a centred scheme can grow by orders of magnitude per step)
@@ -163,7 +176,7 @@ def strat_growth(tier):
 
 
 def check_growth(case):
-    md, model, mesh, disc, n, q0, A, dx = _setup(case)
+    md, model, mesh, disc, n, q0, A, dx, zvec = _setup(case)
     ev = np.linalg.eigvals(A)
     rho = float(np.max(np.abs(ev))) + 1e-300
     if float(np.max(ev.real)) > 1e-10 * rho:
@@ -194,7 +207,7 @@ def strat_order(tier):
 
 def check_order(case):
     from scipy.linalg import expm
-    md, model, mesh, disc, n, q0, A, dx = _setup(case)
+    md, model, mesh, disc, n, q0, A, dx, zvec = _setup(case)
     T = 0.2 / abs(md["a"])
     exact = expm(T * A) @ q0
     errs = []
